@@ -238,9 +238,21 @@ def rest(ctx):
     # read() to the end: the units already pending come first, then every decoded chunk in order; the buffer is emptied
     alls = [p for p in paths if p.returns and N.mk_cmp("is", cnt, N.NONE) in p.guards()]
     good = bool(alls)
+    # two accumulation idioms: the buffer itself grows (rbuffer += chunk), or the chunks are collected in a list that starts with the pending
+    # units and is joined at the end (b"".join([rbuffer, chunk, ...]))
+    joined = None
+    for p in alls:
+        r = p.retval
+        if r[0] == "call" and r[1] == ("attr", N.const(b""), "join") and len(r[2]) == 1 and r[2][0][0] == "list" and r[2][0][1][:1] == (rb,):
+            joined = r[2][0]
     for p in alls:
         r = p.retval
         w = [e for e in p.events if e.kind == "SELFWRITE" and e["attr"] == "rbuffer"]
+        if joined is not None:
+            good = good and r == ("call", ("attr", N.const(b""), "join"), (joined,), ()) and len(joined[1]) == 1 and bool(w) and w[-1]["value"] == N.const(b"") and not any(e.loops for e in w)
+            sw = [e["value"] for e in p.events if e.kind == "SELFWRITE" and e["attr"] == "sincereadwritten"]
+            good = good and len(sw) == 1 and sw[0] == N.mk_add(N.selfattr("sincereadwritten"), ("call", ("free", "len"), (r,), ()))
+            continue
         good = good and (r == rb or (r[0] == "lv" and r[3] == rb)) and bool(w) and w[-1]["value"] == N.const(b"")
         inloop = [e for e in w if e.loops]
         good = good and all(e["value"][0] in ("uconcat", "concat") and e["value"][1] in (rb, r) or e["value"][1][0] == "lv" for e in inloop)
@@ -256,6 +268,10 @@ def rest(ctx):
     for evs in cont:
         raw = [e for e in evs if e.kind == "RAWIO"]
         wr = [e for e in evs if e.kind == "SELFWRITE" and e["attr"] == "rbuffer"]
+        if joined is not None:
+            app = [e for e in evs if e.kind == "MUT" and e["base"] == joined and e["method"] in ("append", "extend", "insert")]
+            okc = okc and len(raw) == 1 and not wr and len(app) == 1 and app[0]["method"] == "append" and app[0]["args"] == (("call", N.selfattr("decoder"), (raw[0]["res"],), ()),)
+            continue
         okc = okc and len(raw) == 1 and len(wr) == 1 and wr[0]["value"][0] in ("uconcat", "concat") and wr[0]["value"][2] == ("call", N.selfattr("decoder"), (raw[0]["res"],), ())
     good = good and okc
     ctx.ob("C10.R4", fi, good, "read() to the end returns the pending units followed by every decoded chunk in order, empties the buffer and advances tell() by what it returned", key="read all")
